@@ -57,12 +57,14 @@ OffsetReportExpected(st, a) ==
 
 ----------------------------------------------------------------------------
 (* C12: a = [c, p]   answer [ok, v]                                          *)
+\* (iok, iv: the same question asked through the other API form of a bound text selection: same answer)
+BothForms(r) == [ok |-> r.ok, v |-> r.v, iok |-> r.ok, iv |-> r.v]
 Utf8ByteExpected(st, a) ==
-    IF ~ContainerOK(st, a.c) THEN Res0
-    ELSE LET cr == ContainerRange(st, a.c) IN Utf8Byte(Sub(st.res[cr[1]].text, cr[2], cr[3]), a.p)
+    IF ~ContainerOK(st, a.c) THEN BothForms(Res0)
+    ELSE LET cr == ContainerRange(st, a.c) IN BothForms(Utf8Byte(Sub(st.res[cr[1]].text, cr[2], cr[3]), a.p))
 ByteToCharExpected(st, a) ==
-    IF ~ContainerOK(st, a.c) THEN Res0
-    ELSE LET cr == ContainerRange(st, a.c) IN ByteToChar(Sub(st.res[cr[1]].text, cr[2], cr[3]), a.p)
+    IF ~ContainerOK(st, a.c) THEN BothForms(Res0)
+    ELSE LET cr == ContainerRange(st, a.c) IN BothForms(ByteToChar(Sub(st.res[cr[1]].text, cr[2], cr[3]), a.p))
 
 ----------------------------------------------------------------------------
 (* C07: a = [c, op, needle, pat, frags]  answer [ok, ranges, groups]         *)
